@@ -212,9 +212,11 @@ class SimFS:
 
     on_death = None
 
+    quiet_reads = 0      # >0: reads are not yield points (inside an atomic parse)
+
     def _before_read(self, kind, path):
         self.reads += 1
-        if self.k is not None:
+        if self.k is not None and not self.quiet_reads:
             if self.k.inert():
                 self.k.abort_if_killed()
             else:
